@@ -40,6 +40,8 @@ type Delivery struct {
 	// Anchors: a list entry that occurs in several lists is written once with a YAML anchor and
 	// referenced by an alias afterwards.
 	Anchors bool
+	// RawYAML sections (complete top-level entries, newline-terminated) are added to the YAML document as they are.
+	RawYAML []string
 	// Extra parameters are added verbatim next to the computed ones (options given on BOTH channels).
 	Extra []string
 }
@@ -245,6 +247,9 @@ func Emit(c *ir.Config, d Delivery) (yaml string, params []string) {
 			}
 		}
 		secs = append(secs, yamlSection{"injected_fields", "injected_fields:\n" + b.String()})
+	}
+	for i, raw := range d.RawYAML {
+		secs = append(secs, yamlSection{fmt.Sprintf("raw%d", i), raw})
 	}
 	params = append(params, d.Extra...)
 	if d.Shuffle != nil {
